@@ -191,3 +191,15 @@ chk("C01", "static analysis: unsafe-operation inventory from MIR against an obli
     "Trusted: rustc MIR; documented safety contracts of the std callees; repr(transparent)/MaybeUninit layout facts; the &CStr "
     "invariant; the two deprecated pointer->Option<NonNull> niche transmutes are allow-listed with the reason. Cleanup "
     "(unwind) paths are not analysed. That the byte matchers cut only after whole matches is C04/C05's behaviour.")
+chk("C10", "static analysis: translation validation of macro expansions - per-iteration relation extracted from witness MIR vs relation composed from per-method reference semantics",
+    "A generator enumerates type-correct chains from the documented method grammar (every adapter alone x every consumer, all "
+    "ordered adapter pairs x 3 consumers: 480 chains; thorough: +1500 seeded depth-3 chains) over opaque source types whose "
+    "next/next_back and all closures are marker calls. rustc expands the macros; from each generated function's MIR the "
+    "loop's iteration relation (paths to continue/exit with ordered marker calls and their outcomes, counter tests and "
+    "updates, result value, initial state) is extracted and must equal the relation composed from one reference entry per "
+    "method (std semantics of filter, filter_map, map, copied, enumerate, skip, skip_while, take, take_while, zip incl. "
+    "its direction after rev, and of the 13 consumers). The direction rule reports positional adapters before a reversing "
+    "method (12 (adapter,reverser) pairs, a design limitation recorded as known findings).",
+    "Trusted: rustc expansion/MIR; the written equivalence between the pull-based schema and std for side-effect-free "
+    "sources (DESIGN.md App. A). flat_map/flatten and collect_const are outside the composer (INIT for collect_const is C11).",
+    cat="translation_validation")
